@@ -25,7 +25,7 @@ def jobs(tier):
             if ("comp" in e.tags or "sel" in e.tags or "truediv" in e.tags) and n == 4:
                 modes.append(dict(guard=("nest", 2)))
             for m in modes:
-                if heavy and (m.get("guard") is not None or m.get("ignore")) and (tier == "quick" or n > 4):
+                if heavy and (m.get("guard") is not None or m.get("ignore")) and n > 4:
                     continue
                 cfg = dict(n=n, r=2, bound=bound, track_all=True)
                 cfg.update(m)
